@@ -35,7 +35,8 @@ FUNCTIONS_ENCODED = [
 ]
 BOUNDS = {
     "quick": {"file": "<= 3 lines over 9 line kinds", "diagnostics": "<= 2, symbolic (line, code)",
-              "disabled_set": "symbolic enabled flag for each diagnostic's code", "comment_code_text": "symbolic choice among 4 texts (aa, aab - contains aa -, zz, a comma list); 3 tails after a bare comment"},
+              "disabled_set": "symbolic enabled flag for each diagnostic's code", "comment_code_text": "symbolic choice among 4 texts (aa, aab - contains aa -, zz, a comma list); 3 tails after a bare comment",
+              "line_boundaries": "first line optionally ending in one of 8 characters that str.splitlines() splits at and the tokenizer does not (symbolic selector)"},
     "thorough": {"file": "<= 4 lines over 9 line kinds", "diagnostics": "<= 2, symbolic (line, code)",
                  "disabled_set": "symbolic enabled flag for each diagnostic's code", "comment_code_text": "symbolic choice among 4 texts (aa, aab - contains aa -, zz, a comma list); 3 tails after a bare comment"},
 }
@@ -88,13 +89,35 @@ def prepare(template, data):
 # IC  indented code line                     y = 2
 # M   ordinary comment                   # hello
 # E   empty line
+# CP  code + ordinary comment ending in a pad character      x = 1  # n<pad>
+# MP  ordinary comment ending in a pad character             # hello<pad>
+#     <pad> is picked by a symbolic selector from characters that str.splitlines() treats as line
+#     boundaries but the Python tokenizer does not (the AST's line numbers count only \n, \r\n, \r)
 KINDS = ["C", "CB", "CK", "OB", "OK", "IK", "IC", "M", "E"]
-CODE_KINDS = ("C", "CB", "CK", "IC")
+CODE_KINDS = ("C", "CB", "CK", "IC", "CP")
+PADS = ["", "\x0c", "\x0b", "\x1c", "\x1d", "\x1e", "\x85", "\u2028", "\u2029"]
 
 
-def _line(kind: str, text: str, tail: str) -> str:
+def _validate_pads() -> None:
+    """the tokenizer's view, checked against CPython: a pad character inside a comment starts no new line"""
+    import ast as _ast
+
+    for pad in PADS:
+        tree = _ast.parse("x = 1  # n" + pad + "\n# hello" + pad + "\ny = 2\n")
+        assert [st.lineno for st in tree.body] == [1, 3], repr(pad)
+
+
+def _norm(kinds):
+    return [{"CP": "C", "MP": "M"}.get(k, k) for k in kinds]
+
+
+def _line(kind: str, text: str, tail: str, pad: str = "") -> str:
     if kind == "C":
         return "x = 1"
+    if kind == "CP":
+        return "x = 1  # n" + pad
+    if kind == "MP":
+        return "# hello" + pad
     if kind == "IC":
         return "    y = 2"
     if kind == "CB":
@@ -200,13 +223,20 @@ TEXTS = ["aa", "aab", "zz", "aa,aab"]
 TAILS = ["", " b", "[a"]
 
 
-def h11(l1: int, c1: int, l2: int, c2: int, e1: bool, e2: bool, tsel: int, ssel: int) -> bool:
+def h11(l1: int, c1: int, l2: int, c2: int, e1: bool, e2: bool, tsel: int, ssel: int, psel: int = 0) -> bool:
     """
     post: _
     """
     if excluded(l1=l1, c1=c1, l2=l2, c2=c2, e1=e1, e2=e2, tsel=tsel, ssel=ssel):
         return skip()
-    kinds = G.case["kinds"]
+    file_kinds = G.case["kinds"]
+    kinds = _norm(file_kinds)
+    pad = PADS[0]
+    if any(k in ("CP", "MP") for k in file_kinds):
+        for i in range(1, len(PADS)):
+            if psel == i:
+                pad = PADS[i]
+                break
     two = G.case["two"]
     n = len(kinds)
     uses_text = any(k in ("CK", "OK", "IK") for k in kinds)
@@ -250,7 +280,7 @@ def h11(l1: int, c1: int, l2: int, c2: int, e1: bool, e2: bool, tsel: int, ssel:
             disabled.add(diags[1][1])
     settings[EC.unused_ignore] = True
     settings[EC.bare_ignore] = True
-    lines = [_line(k, text if uses_text else "", tail if uses_tail else "") for k in kinds]
+    lines = [_line(k, text if uses_text else "", tail if uses_tail else "", pad) for k in file_kinds]
     contents = "\n".join(lines) + "\n"
     vis = TV("f.py", contents, None, settings=settings)
     got = set()
@@ -337,6 +367,22 @@ def cases(tier: str, seed: int) -> List[Case]:
     quick = tier == "quick"
     maxn = 3 if quick else 4
     counter = [0]
+    _validate_pads()
+    # files whose first line ends in a pad character (see CP / MP above), followed by one or two ordinary lines
+    import zlib as _z
+
+    for first in ("CP", "MP"):
+        for n in (1, 2):
+            for rest in itertools.product(KINDS, repeat=n):
+                kinds = (first,) + rest
+                if not any(k in CODE_KINDS for k in kinds):
+                    continue
+                if not any(k in ("CB", "CK", "OB", "OK", "IK") for k in rest):
+                    continue
+                lab = "/".join(kinds)
+                if n == 2 and (_z.crc32(lab.encode()) + seed) % (8 if quick else 2) != 0:
+                    continue
+                out.append(Case("h11", lab, {"kinds": list(kinds), "two": False}, timeout=90 if quick else 240, twin=True))
     for n in range(1, maxn + 1):
         for kinds in itertools.product(KINDS, repeat=n):
             if not any(k in CODE_KINDS for k in kinds):
